@@ -126,6 +126,9 @@ def check(ctx):
     check_worker_count(ctx)
     check_worker_count_special_cases(ctx)
     check_chunk_local_types(ctx)
+    # the settings reach the stages as configured (sa/rules/forwarding.py)
+    from ..rules.forwarding import check_config_settings_as_requested
+    check_config_settings_as_requested(ctx, {'n_processors', 'chunk_size'})
     # settings this property depends on are handed down every call
     # chain, never left to a callee's default (sa/rules/forwarding.py)
     from ..rules.forwarding import check_forwarding
